@@ -1,4 +1,5 @@
 import LPVerif.Lemmas.CoreExec
+import LPVerif.Lemmas.Prof
 /-!
 # C12 — statistics only accumulate; taking a snapshot changes nothing
 -/
@@ -21,5 +22,79 @@ theorem hits_monotone (evs : List Ev) (s : St) (b : Blk) (c o : Int) : s.hits b 
   induction evs generalizing s with
   | nil => exact Nat.le_refl _
   | cons e r ih => exact Nat.le_trans (hits_monotone_step s e b c o) (ih (cb s e))
+
+end LPVerif.Props.C12
+
+/-! ## at the level of `get_stats` (`Model.Prof`): what a snapshot contains, and how two snapshots relate
+
+`St.getStats` is a *function* of the profiler state — the model has no snapshot operation that could change the state,
+and K12 checks that the real `get_stats()` behaves like that function (snapshots interleaved anywhere in a history,
+repeated snapshots identical).  The theorems below are about *every* history `ops` of registrations (repeated or not),
+enables, disables, by-count calls and trace events, from *every* state. -/
+namespace LPVerif.Props.C12
+open LPVerif.Core LPVerif.Prof
+
+/-- what `get_stats` reports under label `lab` in state `s` -/
+def snapshot (s : Prof.St) (lab : Nat) : List (Int × Nat × Int) := labelEntries s.core.abs s.chm lab
+
+theorem getStats_eq (s : Prof.St) : s.getStats = (labelsOf s.chm).map fun lab => (lab, snapshot s lab) := rfl
+
+/-- entries are sorted by line -/
+theorem snapshot_sorted (s : Prof.St) (lab : Nat) : (snapshot s lab).Pairwise (fun a b => a.1 ≤ b.1) :=
+  entries_sorted s.view lab
+
+/-- … unique per line -/
+theorem snapshot_unique (s : Prof.St) (lab : Nat) : ((snapshot s lab).map (·.1)).Nodup :=
+  entries_nodup s.view lab
+
+/-- sorted and unique: strictly increasing line numbers -/
+theorem snapshot_strict (s : Prof.St) (lab : Nat) : (snapshot s lab).Pairwise (fun a b => a.1 < b.1) := by
+  have h1 := snapshot_sorted s lab
+  have h2 := snapshot_unique s lab
+  generalize snapshot s lab = l at h1 h2
+  induction l with
+  | nil => exact List.Pairwise.nil
+  | cons x r ih =>
+    have a1 := List.pairwise_cons.mp h1
+    simp only [List.map_cons, List.nodup_cons] at h2
+    refine List.pairwise_cons.mpr ⟨?_, ih a1.2 h2.2⟩
+    intro y hy
+    have hne : x.1 ≠ y.1 := fun he => h2.1 (List.mem_map.mpr ⟨y, hy, he.symm⟩)
+    have := a1.1 y hy
+    omega
+
+/-- … with at least one hit, on a line that is registered for a code object of that label -/
+theorem snapshot_entry (s : Prof.St) (lab : Nat) (e : Int × Nat × Int) (he : e ∈ snapshot s lab) :
+    e.2.1 ≥ 1 ∧ ∃ c ∈ s.chm.map Prod.fst, c.label = lab ∧ (c.blk, e.1) ∈ s.core.abs.regs := by
+  obtain ⟨hc, h1, _, _⟩ := (mem_entries s.view lab e).mp he
+  exact ⟨h1, (mem_cands s.view lab e.1).mp hc⟩
+
+/-- **no recorded data disappears and hits never decrease**: after any history, every entry of the earlier snapshot
+    is still there, on the same line, with at least as many hits -/
+theorem snapshot_monotone (s : Prof.St) (ops : List Op) (lab : Nat) (e : Int × Nat × Int) (he : e ∈ snapshot s lab) :
+    ∃ e' ∈ snapshot (s.run ops) lab, e'.1 = e.1 ∧ e.2.1 ≤ e'.2.1 :=
+  entry_persists (run_grows ops s) lab e he
+
+/-- the same for whole results of `get_stats`: labels stay, entries stay, hits do not decrease -/
+theorem getStats_monotone (s : Prof.St) (ops : List Op) (lab : Nat) (es : List (Int × Nat × Int))
+    (h : (lab, es) ∈ s.getStats) :
+    ∃ es', (lab, es') ∈ (s.run ops).getStats ∧ ∀ e ∈ es, ∃ e' ∈ es', e'.1 = e.1 ∧ e.2.1 ≤ e'.2.1 := by
+  rw [getStats_eq, List.mem_map] at h
+  obtain ⟨lab', hl, heq⟩ := h
+  cases heq
+  refine ⟨snapshot (s.run ops) lab, ?_, fun e he => snapshot_monotone s ops lab e he⟩
+  rw [getStats_eq, List.mem_map]
+  exact ⟨lab, labels_mono (run_grows ops s) lab hl, rfl⟩
+
+/-- non-vacuity: the snapshot function on a callback state with a recorded line (the hash-map form `ESt` does not
+    reduce in the kernel, so the example is stated on `labelEntries` over the abstract state that `snapshot` reads) -/
+example :
+    let b : Blk := ⟨1, 0⟩
+    let c : Code := ⟨b, 7, [10, 11]⟩
+    let regs := [(b, (10 : Int)), (b, (11 : Int))]
+    let core := Core.run (Core.St.init regs) [⟨0, 0, b, 10, true, 0, 1⟩, ⟨0, 0, b, 11, true, 5, 6⟩]
+    let core' := Core.cb core ⟨0, 0, b, 10, true, 9, 10⟩
+    labelEntries core [(c, regs)] 7 = [(10, 1, 4)] ∧ labelEntries core' [(c, regs)] 7 = [(10, 1, 4), (11, 1, 3)] := by
+  decide +kernel
 
 end LPVerif.Props.C12
